@@ -101,6 +101,18 @@ def impl(case):
                 res['rewritten'] = open(out, 'rb').read().hex()
                 g = bpch1(p, noscale=False)
                 res['scaled'] = view(g, case)
+                # the scaled file written into a directory of its own (the writer puts the tables it needs next to the
+                # output) and read again: the same names, units and values
+                try:
+                    d2 = os.path.join(d, 'fresh')
+                    os.makedirs(d2)
+                    out2 = os.path.join(d2, 'w.bpch')
+                    ncf2bpch(g, out2).close()
+                    res['rescaled'] = view(bpch1(out2, noscale=False), case)
+                except lib.HarnessError:
+                    raise
+                except Exception as e:
+                    res['rescaled'] = dict(err='%s %s' % (type(e).__name__, str(e)[:80]))
                 try:
                     h = bpch2(p)
                     res['bpch2'] = view(h, case)
@@ -214,6 +226,21 @@ def oracle(case, res):
         if got != exp:
             k = next(i for i, (x, y) in enumerate(zip(got, exp)) if x != y)
             return 'scaled value %d of %s is %08x, raw*scale(%g) is %08x' % (k, v['key'], got[k], scale, exp[k])
+    rs = res.get('rescaled')
+    if rs is not None and not case.get('drop_line'):
+        if 'err' in rs:
+            return 'the scaled file written into an empty directory and read again raised: ' + rs['err']
+        for a, b2 in zip(res['scaled']['vars'], rs['vars']):
+            if (a['key'], a['shape'], a['units']) != (b2['key'], b2['shape'], b2['units']):
+                return 'scaled file written into an empty directory and read again: %s / %s / %s became %s / %s / %s' % (
+                    a['key'], a['shape'], a['units'], b2['key'], b2['shape'], b2['units'])
+            x = np.array(a['bits'], dtype='>u4').view('>f4').astype('d')
+            y = np.array(b2['bits'], dtype='>u4').view('>f4').astype('d')
+            ok = np.isfinite(x) & np.isfinite(y)
+            if (np.isfinite(x) != np.isfinite(y)).any() or np.any(np.abs(x[ok] - y[ok]) > 1e-5 * np.maximum(np.abs(x[ok]), 1e-30)):
+                return 'scaled file written into an empty directory and read again: values of %s differ' % a['key']
+        if len(rs['vars']) != len(res['scaled']['vars']):
+            return 'scaled file written into an empty directory and read again: %d tracers, %d before' % (len(rs['vars']), len(res['scaled']['vars']))
     want0 = [B.taus(case, t)[0] for t in range(case['nt'])]
     if res['raw']['tau0'] != want0 or res['raw']['tau1'] != [x + case['dtau'] for x in want0]:
         return 'tau0/tau1 %s %s, written %s' % (res['raw']['tau0'], res['raw']['tau1'], want0)
